@@ -1240,8 +1240,10 @@ class Interp:
 
     def view_of(self, obj, nm, args, targs, e):
         v = obj
-        if isinstance(obj, Ref) and obj.kind in ("var", "field"):
-            v = self.load(obj)
+        while isinstance(v, Ref) and v.kind == "var" and isinstance(v.env.get(v.id), Ref):
+            v = v.env[v.id]          # a local alias of a row / view keeps denoting that row
+        if isinstance(v, Ref) and v.kind in ("var", "field"):
+            v = self.load(v)
         tints = [t for t in (targs or []) if isinstance(t, int)]
         if isinstance(v, Container) and v.kind == "scal" and nm in ("segment", "head", "tail"):
             if nm == "segment":
